@@ -94,6 +94,11 @@ ALL_TRIGGERS = (T_GEN_INCORP, T_GEN_REORDER, T_REORDER_GROUPED, T_SCALAR_INSERT,
                 T_BV_TRAIT, T_BV_SPLICE, T_GT_EMPTY, T_GT_NOMASK)
 
 _CLS_CACHE = {}
+STATS = {}      # feature counters of the current process (reported in the unit notes)
+
+
+def stat(key):
+    STATS[key] = STATS.get(key, 0) + 1
 
 
 def load_class(kname):
@@ -118,10 +123,15 @@ class Fail(Exception):
 
 class Entry(object):
     """one live object of the pool and its model"""
-    __slots__ = ("obj", "ents", "kname", "roles", "phsum", "tag")
+    __slots__ = ("obj", "ents", "kname", "roles", "phsum", "tag", "absent")
 
-    def __init__(self, obj, ents, kname, roles, phsum=None, tag=""):
+    def __init__(self, obj, ents, kname, roles, phsum=None, tag="", absent=()):
         self.obj, self.ents, self.kname, self.roles, self.phsum, self.tag = obj, ents, kname, roles, phsum, tag
+        self.absent = frozenset(absent)     # name arrays this object does not carry although others in the history do
+
+    def like(self, obj, ents=None, tag=None, absent=None):
+        return Entry(obj, self.ents if ents is None else ents, self.kname, self.roles, self.phsum,
+                     self.tag if tag is None else tag, self.absent if absent is None else absent)
 
 
 # ---------------------------------------------------------------------------
@@ -325,20 +335,20 @@ class Run(object):
         return out, defined
 
     # ----- construction
-    def build(self, kname, roles, ents, phsum=None, how=0, tag=""):
+    def build(self, kname, roles, ents, phsum=None, how=0, tag="", absent=()):
         sp = CLASSES[kname]
         cls = load_class(kname)
         mat, _ = self.exp_mat(roles, ents, kname, phsum)
         kw = {}
         for role in dict.fromkeys(roles):
-            kw.update(self.label_kwargs(role, ents[role]))
+            kw.update(self.label_kwargs(role, ents[role], omit=absent))
         if kname == "DenseGenotypeMatrix":
             kw["ploidy"] = 2 if phsum is None else max(1, len(phsum))
         if sp.get("bv") and how == 0:
             obj = cls.from_numpy(mat=mat, **kw)
         else:
             obj = cls(mat=mat, **kw)
-        return Entry(obj, {r: list(v) for r, v in ents.items()}, kname, tuple(roles), phsum, tag)
+        return Entry(obj, {r: list(v) for r, v in ents.items()}, kname, tuple(roles), phsum, tag, absent)
 
     # ----- observation
     def state(self, ent, obj=None):
@@ -409,7 +419,7 @@ class Run(object):
         for role in dict.fromkeys(roles):
             for name in LABELS.get(role, ()):
                 arr = getattr(obj, name)
-                if name not in self.present:
+                if name not in self.present or name in ent.absent:
                     if arr is not None:
                         raise Fail("label-presence", "%s: %s was never given but is %s" % (pre, name, arg_repr(arr)))
                     continue
@@ -481,7 +491,10 @@ class Run(object):
 
     def axis_arg(self, ent, role):
         a = self.rnd.choice(self.axes_of(ent, role))
-        return a if self.rnd.random() < 0.6 else a - len(ent.roles)
+        if self.rnd.random() < 0.6:
+            return a
+        stat("generic form with a negative axis")
+        return a - len(ent.roles)
 
     def has_specific(self, role):
         return role in ("taxa", "vrnt", "trait", "phase")
@@ -511,7 +524,7 @@ class Run(object):
     def describe(self, ent, op, role, kwargs):
         return "%s[%s].%s_%s(%s)" % (ent.kname, ent.tag, op, role, ", ".join("%s=%s" % (k, arg_repr(v)) for k, v in kwargs.items()))
 
-    def copy_both(self, ent, op, role, kwargs, new_ents, tag):
+    def copy_both(self, ent, op, role, kwargs, new_ents, tag, res_absent=None):
         """copying operation in its specific and its generic form; returns the entry of the result"""
         obj = ent.obj
         what = self.describe(ent, op, role, kwargs)
@@ -527,7 +540,7 @@ class Run(object):
         self.check_args(what, kwargs, snap)
         out = None
         for form, r in results:
-            e = Entry(r, new_ents, ent.kname, ent.roles, ent.phsum, tag)
+            e = ent.like(r, new_ents, tag, res_absent)
             if r is None or not isinstance(r, type(obj)):
                 raise Fail("result-type", "%s (%s) returned %r" % (what, form, type(r).__name__))
             self.check(e, "result of %s (%s form)" % (what, form))
@@ -540,23 +553,25 @@ class Run(object):
         self.check(ent, "operand after %s" % what)
         return out
 
-    def mutate_both(self, ent, op, role, kwargs, new_ents, with_counterpart=True):
+    def mutate_both(self, ent, op, role, kwargs, new_ents, with_counterpart=True, res_absent=None):
         obj = ent.obj
         what = self.describe(ent, op, role, kwargs)
         cop = COUNTERPART.get(op) if with_counterpart else None
         res = None
         if cop is not None:
-            res = self.copy_both(ent, cop, role, kwargs, new_ents, "r%d" % len(self.pool))
+            res = self.copy_both(ent, cop, role, kwargs, new_ents, "r%d" % len(self.pool), res_absent)
         snap = self.snap_args(kwargs)
         twin = None
         if self.has_specific(role) and self.generic_ok(ent, op):
-            twin = self.call("copy.deepcopy(%s)" % ent.tag, _copy.deepcopy, obj)
-            self.check(Entry(twin, ent.ents, ent.kname, ent.roles, ent.phsum, ent.tag + "'"), "deepcopy of %s" % ent.tag)
+            twin = self.make_twin(ent)
         if self.has_specific(role):
             ret = self.call(what, getattr(obj, op + "_" + role), **kwargs)
             if twin is not None:
                 ax = self.axis_arg(ent, role)
-                self.call(what + " via %s(axis=%d)" % (op, ax), getattr(twin, op), axis=ax, _kind="exception-generic", **kwargs)
+                kw2 = dict(kwargs)
+                if kw2.get("values") is obj:
+                    kw2["values"] = twin          # an object appended to itself: the twin appends itself
+                self.call(what + " via %s(axis=%d)" % (op, ax), getattr(twin, op), axis=ax, _kind="exception-generic", **kw2)
         else:
             ax = self.axis_arg(ent, role)
             ret = self.call(what + " via %s(axis=%d)" % (op, ax), getattr(obj, op), axis=ax, **kwargs)
@@ -564,6 +579,8 @@ class Run(object):
             raise Fail("result-type", "%s returned %r instead of None" % (what, type(ret).__name__))
         self.check_args(what, kwargs, snap)
         ent.ents = new_ents
+        if res_absent is not None:
+            ent.absent = frozenset(res_absent)
         self.check(ent, "after %s" % what)
         if twin is not None:
             d = self.diff_states(self.state(ent, obj), self.state(ent, twin))
@@ -575,37 +592,50 @@ class Run(object):
                 raise Fail("mutating-vs-copying", "%s and its copying counterpart %s give different states: %s" % (what, cop, d))
             self.pool.append(res)
 
+    def make_twin(self, ent):
+        twin = self.call("copy.deepcopy(%s)" % ent.tag, _copy.deepcopy, ent.obj)
+        self.check(ent.like(twin, tag=ent.tag + "'"), "deepcopy of %s" % ent.tag)
+        d = self.diff_states(self.state(ent, ent.obj), self.state(ent, twin))
+        if d:
+            raise Fail("copy", "copy.deepcopy(%s) differs from the original in %s" % (ent.tag, d))
+        return twin
+
     # ----- building blocks of new entities
     def other_ents(self, ent, role, new):
         e = {r: list(v) for r, v in ent.ents.items()}
         e[role] = list(new)
         return e
 
-    def make_block(self, ent, role, k):
-        """a block of k new entities along `role`, all other axes as in ent"""
+    def make_block(self, ent, role, k, may_omit=True):
+        """a block of k new entities along `role`, all other axes as in ent; sometimes without its name array"""
         new = self.fresh(role, k)
-        return self.build(ent.kname, ent.roles, self.other_ents(ent, role, new), ent.phsum, how=1, tag="v%d" % len(self.pool))
+        absent = set(ent.absent)
+        nm = NAME_LABEL.get(role)
+        if nm in self.present and nm not in absent and may_omit and self.rnd.random() < 0.15:
+            absent.add(nm)
+            stat("block without its name array")
+        if nm in absent:
+            for e in new:
+                self.nameless[role].add(e)
+        return self.build(ent.kname, ent.roles, self.other_ents(ent, role, new), ent.phsum, how=1,
+                          tag="v%d" % len(self.pool), absent=absent)
 
-    def values_kwargs(self, ent, role, block, allow_omit=True):
+    def values_kwargs(self, ent, role, block):
         """either pass the block as an object of the class or as raw ndarray + label arrays"""
         sp = CLASSES[ent.kname]
         new = block.ents[role]
         as_object = self.rnd.random() < 0.5
         if as_object and not (sp.get("bv") and role != "taxa"):
             self.pool.append(block)
+            stat("values passed as a matrix object")
             return dict(values=block.obj)
-        omit = ()
-        nm = NAME_LABEL.get(role)
-        if allow_omit and nm in self.present and self.rnd.random() < 0.15:
-            omit = (nm,)
-            for e in new:
-                self.nameless[role].add(e)
+        stat("values passed as ndarray + label arrays")
         if sp.get("bv"):
             vals = block.obj.unscale()
         else:
             vals = numpy.array(block.obj.mat, copy=True)
         kw = dict(values=vals)
-        kw.update(self.label_kwargs(role, new, omit))
+        kw.update(self.label_kwargs(role, new, omit=block.absent))
         return kw
 
     # ----- the operations
@@ -645,6 +675,7 @@ class Run(object):
         form = self.rnd.choice(["int", "int", "list", "array", "slice", "mask"])
         if n == 1:
             form = self.rnd.choice(["empty-list", "empty-slice", "mask0"])
+        stat("delete/remove obj form: " + form)
         if form == "int":
             return self.rnd.randrange(-n, n)
         if form in ("list", "array"):
@@ -697,6 +728,7 @@ class Run(object):
         if sp.get("square") and role == "taxa":
             self.used.add(T_SQ_INSERT)
         form = self.rnd.choice(forms)
+        stat("insert/incorp obj form: " + form)
         if form == "scalar":
             obj = self.rnd.randrange(-n, n + 1)
         elif form == "list1":
@@ -724,9 +756,16 @@ class Run(object):
             self.pool.append(self.copy_both(ent, "insert", role, kw, new, "r%d" % len(self.pool)))
 
     def op_adjoin(self, ent, role, mutate):
-        k = self.block_size(ent, role)
-        block = self.make_block(ent, role, k)
-        kw = self.values_kwargs(ent, role, block)
+        sp = CLASSES[ent.kname]
+        if (self.rnd.random() < 0.08 and self.room(ent, role) >= len(ent.ents[role]) and not sp.get("square")
+                and not (sp.get("bv") and role != "taxa")):
+            block = ent                      # the object adjoined to itself
+            stat("object adjoined/appended to itself")
+            kw = dict(values=ent.obj)
+        else:
+            k = self.block_size(ent, role)
+            block = self.make_block(ent, role, k)
+            kw = self.values_kwargs(ent, role, block)
         new = self.other_ents(ent, role, ent.ents[role] + block.ents[role])
         cp = self.copy_allowed(ent, role)
         if cp:
@@ -745,6 +784,7 @@ class Run(object):
         for _ in range(self.rnd.choice([0, 1, 1, 2])):
             if self.rnd.random() < 0.25 and room >= len(ent.ents[role]):
                 mats.append(self.rnd.choice(mats))        # the same object twice
+                stat("concat with the same object twice")
                 room -= len(mats[-1].ents[role])
             elif room >= 1:
                 b = self.make_block(ent, role, min(room, self.rnd.choice([1, 2])))
@@ -760,6 +800,11 @@ class Run(object):
         self.mark_copy(ent, role)
         first = mats[0]
         new = self.other_ents(first, role, joined)
+        nm = NAME_LABEL.get(role)
+        res_absent = set(first.absent)
+        res_absent.discard(nm)
+        if nm is not None and all(nm in m.absent for m in mats):
+            res_absent.add(nm)
         objs = [m.obj for m in mats]
         what = "%s.concat_%s([%s])" % (ent.kname, role, ", ".join(m.tag for m in mats))
         results = []
@@ -769,7 +814,7 @@ class Run(object):
         results.append(("generic axis=%d" % ax, self.call(what + " via concat(axis=%d)" % ax, cls.concat, list(objs), axis=ax)))
         out = None
         for form, r in results:
-            e = Entry(r, new, ent.kname, ent.roles, ent.phsum, "r%d" % len(self.pool))
+            e = ent.like(r, new, "r%d" % len(self.pool), res_absent)
             if not isinstance(r, type(ent.obj)):
                 raise Fail("result-type", "%s (%s) returned %r" % (what, form, type(r).__name__))
             self.check(e, "result of %s (%s form)" % (what, form))
@@ -791,6 +836,7 @@ class Run(object):
         if self.grouped(ent, role):
             if self.rnd.random() < 0.6 or T_REORDER_GROUPED in self.allow:
                 self.cur["reorder_grouped"] = True
+                stat("reorder with an arbitrary permutation while grouped")
                 self.rnd.shuffle(perm)
             else:
                 # a reordering that keeps every group where it is (only members move inside their group)
@@ -821,10 +867,11 @@ class Run(object):
 
     def pick_keys(self, ent, role):
         """None (default keys) or explicit keys; returns (keys argument, key names least..most significant)"""
-        avail = [n for n in LABELS.get(role, ()) if n in self.present]
+        have = [n for n in LABELS.get(role, ()) if n in self.present and n not in ent.absent]
+        avail = list(have)
         if NAME_LABEL.get(role) in avail and any(e in self.nameless[role] for e in ent.ents[role]):
             avail.remove(NAME_LABEL[role])          # None cannot be ordered against str
-        default = [k for k in DEFAULT_KEYS[role] if k in self.present]
+        default = [k for k in DEFAULT_KEYS[role] if k in have]
         default_ok = bool(default) and all(k in avail for k in default)
         return avail, default, default_ok
 
@@ -838,19 +885,20 @@ class Run(object):
         stable = sorted(range(len(old)), key=lambda i: keyrow(old[i]))      # Python's sort is stable
         cand = [old[i] for i in stable]
         try:
-            self.check(Entry(ent.obj, self.other_ents(ent, role, cand), ent.kname, ent.roles, ent.phsum, ent.tag), "probe")
+            self.check(ent.like(ent.obj, self.other_ents(ent, role, cand)), "probe")
             return cand
         except Fail:
             pass
         if CLASSES[ent.kname].get("bv"):
             return cand
+        stat("sort: order found by record matching (not the stable order)")
         # general path
         obj = ent.obj
         axes = self.axes_of(ent, role)
         square = len(axes) == 2
         mat = obj.mat
         expm, _ = self.exp_mat(ent.roles, ent.ents, ent.kname, ent.phsum)      # ent.ents still has the old order
-        labs = [n for n in LABELS.get(role, ()) if n in self.present]
+        labs = [n for n in LABELS.get(role, ()) if n in self.present and n not in ent.absent]
 
         def datakey(m, i):
             sl = numpy.take(m, i, axis=axes[0])
@@ -890,7 +938,9 @@ class Run(object):
             if not default_ok:
                 return False
             keys, keynames = None, default
+            stat("group" if group else "sort with default keys")
         else:
+            stat("sort with explicit keys")
             pool = avail + ["ext3", "ext2", "extu"]
             keynames = [self.rnd.choice(pool) for _ in range(self.rnd.choice([1, 1, 2, 3]))]
             arrs = []
@@ -906,8 +956,7 @@ class Run(object):
         op = "group" if group else "sort"
         what = self.describe(ent, op, role, kw)
         snap = self.snap_args({"keys": [k for k in keys if k is not None]} if keys is not None else {})
-        twin = self.call("copy.deepcopy(%s)" % ent.tag, _copy.deepcopy, ent.obj)
-        self.check(Entry(twin, ent.ents, ent.kname, ent.roles, ent.phsum, ent.tag + "'"), "deepcopy of %s" % ent.tag)
+        twin = self.make_twin(ent)
         ret = self.call(what, getattr(ent.obj, op + "_" + role), **kw)
         ax = self.axis_arg(ent, role)
         if group:
@@ -947,6 +996,9 @@ class Run(object):
             self.call(what + " via ungroup(axis=%d)" % ax, ent.obj.ungroup, axis=ax)
         if getattr(ent.obj, "is_grouped_" + role)():
             raise Fail("group-flag", "after %s the object still reports is_grouped_%s()" % (what, role))
+        left = [m for m in GROUP[role][1] if getattr(ent.obj, m) is not None]
+        if left:
+            raise Fail("group-flag", "after %s the group metadata %s is still set" % (what, left))
         self.check(ent, "after %s" % what)
 
     def op_lexsort(self, ent, role):
@@ -992,7 +1044,7 @@ class Run(object):
             r = self.call(what, _copy.copy, ent.obj)
         else:
             r = self.call(what, _copy.deepcopy, ent.obj)
-        e = Entry(r, {k: list(v) for k, v in ent.ents.items()}, ent.kname, ent.roles, ent.phsum, "c%d" % len(self.pool))
+        e = ent.like(r, {k: list(v) for k, v in ent.ents.items()}, "c%d" % len(self.pool))
         self.check(e, "result of %s" % what)
         d = self.diff_states(self.state(ent, ent.obj), self.state(ent, r))
         if d:
@@ -1034,7 +1086,7 @@ class Run(object):
             ents = {"phase": list(ent.ents["phase"]), "taxa": list(ent.ents["taxa"]), "vrnt": vr}
         if type(out).__name__ != kname:
             raise Fail("result-type", "%s returned %s" % (what, type(out).__name__))
-        e = Entry(out, ents, kname, roles, phsum, "g%d" % len(self.pool))
+        e = Entry(out, ents, kname, roles, phsum, "g%d" % len(self.pool), ent.absent)
         self.check(e, "result of %s" % what)
         for role in ("taxa", "vrnt"):
             if self.grouped(ent, role) and not self.grouped(e, role) and GROUP[role][0] in self.present:
@@ -1173,7 +1225,7 @@ def run_history(case):
                     ops = run.available_ops(ent, role)
                     if not ops:
                         continue
-                    op = rnd.choice(ops + (["copy"] if rnd.random() < 0.1 else []))
+                    op = "copy" if rnd.random() < 0.06 else rnd.choice(ops)
                     log.append("%d:%s[%s].%s_%s" % (s, ent.kname, ent.tag, op, role))
                     done = run.do_step(ent, role, op)
                     if done is False:
@@ -1370,6 +1422,7 @@ def gen_triggers(rnd, tier):
 def drive(ctx, cases, stop_unknown=3, cap_known=3):
     seen = {}
     unknown = 0
+    STATS.clear()
     for case in cases:
         try:
             bad, msg, cls, nstep = run_history(case)
@@ -1385,6 +1438,7 @@ def drive(ctx, cases, stop_unknown=3, cap_known=3):
                 unknown += 1
                 if unknown >= stop_unknown:
                     break
+    ctx.notes.append("features exercised: " + "; ".join("%s=%d" % kv for kv in sorted(STATS.items())))
 
 
 RULE = ("seeded random operation histories (<= 6 steps, VERIF_SEED) on a pool of live objects whose cells encode the "
